@@ -170,7 +170,7 @@ PROPS = {
         "not_covered": ["non-interference between sessions (follows from Rust ownership of the per-key Box<Receiver>; stated, not proved)"],
     },
     "C19": {
-        "level": "proof", "verus": U("expiry", "receiver"), "kani": [], "structural": [],
+        "level": "proof", "verus": U("expiry", "receiver"), "kani": KANI_WIRE, "structural": [],
         "technique": "Verus contracts over the axiomatised time model; skew-invariance lemma",
         "claim": "server time estimate == SCT + elapsed for both signs of the offset, invariant under any receiver clock skew; expiry decision and the single Complete -> Expired transition",
         "not_covered": ["objects arriving before the FDT (history)"],
